@@ -35,7 +35,8 @@ ASSUMPTIONS = [
     "diff_jobs compares (key, value) pairs with Python equality (1 == 1.0 == True), as the statement says",
 ]
 
-VALUES = [1, 1.0, True, 0, False, 0.0, -0.0, "1", None, [1, 2], [1.0, 2], [], {"x": 1}, {}, 2, "ab"]
+VALUES = [1, 1.0, True, 0, False, 0.0, -0.0, "1", None, [1, 2], [1.0, 2], [], {"x": 1}, {}, 2, "ab",
+          [{"x": 1, "y": 2}], [{"y": 2, "x": 1}]]  # the last two: equal lists of mappings written in different key order
 KEYS = ["a", "b", "n", "l", "s", "pressure", "sp_x", "ps"]  # incl. names starting with the letters of the internal "sp." prefix
 
 
@@ -90,6 +91,15 @@ def leaves(sp):
     return out
 
 
+def frozen(v):
+    """Hashable stand-in for a schema value (lists are tuples; mappings inside lists become sorted item tuples)."""
+    if isinstance(v, (tuple, list)):
+        return tuple(frozen(x) for x in v)
+    if isinstance(v, dict):
+        return ("<mapping>", tuple(sorted((k, frozen(x)) for k, x in v.items())))
+    return v
+
+
 def expected_schema(sps, exclude_const):
     n = len(sps)
     per_key = {}
@@ -108,7 +118,7 @@ def expected_schema(sps, exclude_const):
                     continue
         by_type = {}
         for v in real:
-            by_type.setdefault(type(v), set()).add(v)
+            by_type.setdefault(type(v), set()).add(frozen(v))
         exp[k] = by_type
     return exp
 
@@ -211,7 +221,12 @@ def run_case(case, ctx):
         exp = expected_schema(sel, exclude_const)
         try:
             got_schema = project.detect_schema(exclude_const=exclude_const, subset=arg)
-            got = {k: {t: set(vs) for t, vs in dict(got_schema[k]).items() if vs} for k in got_schema}
+            raw = {k: {t: list(vs) for t, vs in dict(got_schema[k]).items() if vs} for k in got_schema}
+            got = {k: {t: {frozen(v) for v in vs} for t, vs in d.items()} for k, d in raw.items()}
+            for k, d in raw.items():
+                for t, vs in d.items():
+                    if len(vs) != len(got[k][t]):
+                        mms.append(Mismatch("schema_values", f"detect_schema(exclude_const={exclude_const}) key {k!r}: the same value is listed more than once: {vs!r} for {sel!r}"))
         except Exception as e:
             mms.append(Mismatch("schema_raises", f"detect_schema(exclude_const={exclude_const}, subset={'yes' if arg is not None else None}) raised {type(e).__name__}: {e} for {sel!r}"))
             continue
@@ -237,7 +252,7 @@ def run_case(case, ctx):
                 mms.append(Mismatch("schema_values", f"detect_schema(exclude_const={exclude_const}) key {k!r}: got {g!r} expected {e!r} for {sel!r}"))
             else:
                 # sets compare with ==; also make sure the *types inside* each group are exact
-                for t, vs in g.items():
+                for t, vs in raw[k].items():
                     if any(type(v) is not t for v in vs):
                         mms.append(Mismatch("schema_values", f"key {k!r}: group {t.__name__} holds {vs!r}"))
 
